@@ -166,9 +166,121 @@ class DataKindsForce(Suite):
         return repr(case)
 
 
+FAIL_SRC = '''
+from taskchain import Task
+
+STATE = {'fail': False, 'runs': [], 'n': 0}
+
+def _tick(name):
+    STATE['runs'].append(name)
+    STATE['n'] += 1
+    return STATE['n']
+
+class A(Task):
+    def run(self) -> dict:
+        return {'v': _tick('a')}
+
+class B(Task):
+    class Meta:
+        input_tasks = [A]
+    def run(self, a) -> dict:
+        v = _tick('b')
+        if STATE['fail']:
+            raise RuntimeError('b fails')
+        return {'v': v}
+
+class C(Task):
+    class Meta:
+        input_tasks = [B]
+    def run(self, b) -> dict:
+        return {'v': _tick('c')}
+
+class U(Task):
+    def run(self) -> dict:
+        return {'v': _tick('u')}
+'''
+
+
+class FailingRecompute(Suite):
+    """Chain.force(names, recompute=..., delete_data=...) while one of the forced tasks fails: with delete_data the
+    stored results of every forced task that was not recomputed are gone afterwards (a later chain is not served an
+    outdated result), the unrelated task keeps its result, and when the cause is gone every forced task is computed
+    once.  Runtime check only (which tasks run before the failure follows a set iteration in the library)."""
+    name = 'failing_recompute'
+    model = ''
+
+    def gen(self, rng, tier):
+        return [dict(delete=d, recompute=r, names=n) for d in (True, False) for r in (True, False) for n in (['a'], ['b'], ['a', 'c'])]
+
+    def run_impl(self, case):
+        import sys, types
+        from pathlib import Path
+        from taskchain import Config
+        from .. import pipeline as pl
+        with pl.workspace(dict(classes=[], files={})) as (d, _):
+            name = 'tcv_failrec'
+            m = types.ModuleType(name)
+            sys.modules[name] = m
+            try:
+                exec(compile(FAIL_SRC, name, 'exec'), m.__dict__)
+
+                def chain():
+                    return Config(Path('data'), name='c', data={'tasks': [f'{name}.*']}).chain()
+                ch = chain()
+                first = {n: t.value for n, t in ch.tasks.items()}
+                m.STATE['fail'] = True
+                m.STATE['runs'].clear()
+                try:
+                    ch.force(case['names'], recompute=case['recompute'], delete_data=case['delete'])
+                    raised = None
+                except Exception as e:
+                    raised = type(e).__name__
+                ran_forced = list(m.STATE['runs'])
+                has = {n: bool(t.has_data) for n, t in chain().tasks.items()}
+                stored = {n: (t.value if has[n] and n in ('a', 'u') else None) for n, t in chain().tasks.items()}
+                m.STATE['fail'] = False
+                m.STATE['runs'].clear()
+                later = {n: t.value for n, t in chain().tasks.items()}
+                return dict(first=first, raised=raised, ran_forced=ran_forced, has=has, ran_later=list(m.STATE['runs']), later=later)
+            finally:
+                sys.modules.pop(name, None)
+
+    def oracle(self, case, obs):
+        if 'unexpected_exception' in obs:
+            return f'unexpected exception {obs["unexpected_exception"]}: {obs["text"]}'
+        down = {'a': {'a', 'b', 'c'}, 'b': {'b', 'c'}, 'c': {'c'}}
+        forced = set().union(*(down[n] for n in case['names']))
+        fails = case['recompute'] and 'b' in forced
+        if fails and obs['raised'] is None:
+            return f'{case}: the recomputation of a failing task raised nothing'
+        if not fails and obs['raised'] is not None:
+            return f'{case}: force raised {obs["raised"]}'
+        if not obs['has']['u']:
+            return f'{case}: the unrelated task lost its result'
+        if case['delete']:
+            ran_ok = set(obs['ran_forced']) - {'b'} if fails else set(obs['ran_forced'])
+            for n in sorted(forced):
+                recomputed = case['recompute'] and n in ran_ok and not (fails and n == 'c')
+                if obs['has'][n] and not recomputed:
+                    return (f'{case}: delete_data was asked for, {n} was not recomputed (runs during force: {obs["ran_forced"]}) and its '
+                            f'stored result is still there: a later chain is served the outdated value')
+        for n in sorted(forced):
+            if case['delete'] and obs['later'][n] == obs['first'][n] and not (case['recompute'] and n in obs['ran_forced']):
+                return f'{case}: after the cause of the failure is gone {n} still yields the value from before the forcing'
+        if any(obs['ran_later'].count(n) > 1 for n in 'abcu'):
+            return f'{case}: a task ran more than once afterwards: {obs["ran_later"]}'
+        return None
+
+    def nontrivial(self, case, obs):
+        return True
+
+    def key(self, case):
+        return repr(case)
+
+
 class C07(Prop):
     pid = 'C07'
-    suites = [Forcing(), NameModeForce(), DataKindsForce()]
+    suites = [Forcing(), NameModeForce(), DataKindsForce(), FailingRecompute()]
     assumptions = ['Chain.force iterates a set: the recomputation order is arbitrary, the model uses one order and the '
                    'comparison sorts the runs of that operation']
 
